@@ -2128,6 +2128,75 @@ func c18ControlStreamReadOn(c *Ctx) {
 	c.Floor(R, "newRawConn call sites", n, 2)
 }
 
+// C16.10: a path that leaves a path manager gives its connection ID back. GetConnIDForPath takes a peer-issued ID out
+// of the queue for the path (and registers its reset token); the only way back is retireConnID(pathID), which queues
+// RETIRE_CONNECTION_ID. Every removal from the managers' path collections is paired with it — for every path, not only
+// for those with an outstanding challenge, and including the path that is switched to (the connection keeps using the
+// active ID).
+func c16PathsGiveTheirConnIDBack(c *Ctx) {
+	const R = "C16.10"
+	callsField := func(name string) IP {
+		return func(in ssa.Instruction) bool {
+			cl, ok := in.(*ssa.Call)
+			if !ok || cl.Call.IsInvoke() {
+				return false
+			}
+			fl, _ := loadedField(stripConv(cl.Call.Value))
+			return fl != nil && fl.Name() == name
+		}
+	}
+	retire := callsField("retireConnID")
+	n := 0
+	// outgoing: delete(pm.paths, id)
+	outPaths := c.fld("", "pathManagerOutgoing", "paths")
+	for _, f := range c.P.ScopeFuncs() {
+		if funcPkgPath(f) != modPath || f.Signature.Recv() == nil {
+			continue
+		}
+		if rn := namedOf(f.Signature.Recv().Type()); rn == nil || rn.Obj().Name() != "pathManagerOutgoing" {
+			continue
+		}
+		for _, in := range findInstrsLocal(f, func(x ssa.Instruction) bool {
+			cl, ok := x.(*ssa.Call)
+			return ok && builtinName(&cl.Call) == "delete" && loadsPath(cl.Call.Args[0], outPaths)
+		}) {
+			in := in
+			n++
+			c.FuncsSet[funcName(f)] = true
+			c.cut(R, "retire:"+funcName(f)+" retires the path's connection ID before forgetting the path", &Cut{Fn: f, Target: func(x ssa.Instruction) bool { return x == in }, Barrier: retire},
+				"a validated path has no outstanding challenge but still holds a connection ID: closing it without retireConnID leaks the ID and leaves its reset token registered")
+		}
+	}
+	// incoming: SwitchToPath retires on every iteration of its loop
+	sw := c.fn("", "pathManager", "SwitchToPath")
+	inPaths := c.fld("", "pathManager", "paths")
+	var starts []*ssa.BasicBlock
+	eachInstr(sw, func(in ssa.Instruction) {
+		// the loop body: the block that loads an element of pm.paths
+		if ia, ok := in.(*ssa.IndexAddr); ok && loadsPath(ia.X, inPaths) {
+			starts = append(starts, in.Block())
+		}
+		if ix, ok := in.(*ssa.Index); ok && loadsPath(ix.X, inPaths) {
+			starts = append(starts, in.Block())
+		}
+	})
+	latch := func(in ssa.Instruction) bool {
+		bo, ok := in.(*ssa.BinOp)
+		if !ok || bo.Op != token.ADD {
+			return false
+		}
+		ph, ok := bo.X.(*ssa.Phi)
+		return ok && strings.Contains(ph.Comment, "rangeindex")
+	}
+	c.Floor(R, "loop bodies over pm.paths in SwitchToPath", len(starts), 1)
+	if len(starts) > 0 {
+		n++
+		c.cut(R, "retire:pathManager.SwitchToPath retires the connection ID of every path it forgets", &Cut{Fn: sw, StartBlocks: starts, Target: OrIP(latch, isReturn), Barrier: retire},
+			"all paths are forgotten after a switch (pm.paths is cleared) and the connection goes on with the active connection ID: the ID taken for the path switched to must be retired like the others, or every migration leaks one of the peer's IDs")
+	}
+	c.Floor(R, "path removals checked", n, 2)
+}
+
 // valueOf: the instruction as a value (nil if it is not one).
 func valueOf(in ssa.Instruction) ssa.Value {
 	v, _ := in.(ssa.Value)
